@@ -13,6 +13,7 @@ from . import rules_bits as RBI
 from . import rules_str as RST
 from . import rules_parse as RP
 from . import rules_holder as RHO
+from . import rules_tree as RT
 
 
 def need_unit(ctx, name, w1=False, **kw):
@@ -293,4 +294,29 @@ def C03(ctx):
             "hand-out. Not decided: exactly-once unmapping over histories, absence of drift as a numeric statement.")
 
 
-PROPS = {"C01": C01, "C02": C02, "C03": C03, "C17": C17, "C19": C19, "C20": C20, "C15": C15, "C18": C18, "C14": C14, "C13": C13, "C16": C16, "C10": C10, "C09": C09, "C11": C11, "C12": C12, "C05": C05, "C04": C04}
+def C06(ctx):
+    u = need_unit(ctx, "trees")
+    RT.check_C06(ctx, u)
+    return ("Structural clauses of C06: mirror symmetry of every left/right case split of the red-black tree, hook reset on "
+            "removal, parent/child and predecessor/successor pairing of link writes, the descent rules of both insert variants, "
+            "loop progress. Not decided: validity of the colouring / height bound, in-order walk equals contents (global shape "
+            "invariants over histories); a defect that is symmetric in both mirrored arms is invisible to M.")
+
+
+def C07(ctx):
+    u = need_unit(ctx, "trees")
+    RT.check_C07(ctx, u, thorough=(ctx.tier == "thorough"))
+    return ("Structural clauses of C07: the overlap test and the pruning guard decided against their specification on every "
+            "order type of their operands; the search's decision structure; re-aggregation after every child-link write "
+            "(children before parents); aggregator symmetry and seeding. Not decided: exactly-once as a count over a concrete tree.")
+
+
+def C08(ctx):
+    u = need_unit(ctx, "trees")
+    RT.check_C08(ctx, u)
+    return ("Structural clauses of C08: merge symmetry and winner, hook resets in pop/remove, backlink pairing, detaching "
+            "before merging in _collapse, accessor polarity, loop progress. Not decided: top() is a maximum after any history "
+            "(heap order is a global shape invariant).")
+
+
+PROPS = {"C06": C06, "C07": C07, "C08": C08, "C01": C01, "C02": C02, "C03": C03, "C17": C17, "C19": C19, "C20": C20, "C15": C15, "C18": C18, "C14": C14, "C13": C13, "C16": C16, "C10": C10, "C09": C09, "C11": C11, "C12": C12, "C05": C05, "C04": C04}
